@@ -598,9 +598,17 @@ func run(c *vf.Ctx) {
 		h.Branches["master"] = len(h.Commits) - 1
 		repo := c.TempDir(fmt.Sprintf("repo%d", bi))
 		defer os.RemoveAll(repo)
-		c.Must(g.Init(repo, true, "sha1"), "git init")
-		ids, err := g.Import(repo, h)
-		c.Must(err, "fast-import")
+		if err := g.Init(repo, true, "sha1"); err != nil {
+			c.Broken("git init: %v", err)
+			return
+		}
+		gi := gitx.New(c.TempDir("githome"))
+		gi.Env = g.Env
+		ids, err := gi.Import(repo, h)
+		if err != nil {
+			c.Broken("fast-import: %v", err)
+			return
+		}
 		var stdin strings.Builder
 		var newIDs []string
 		for j := range batch {
@@ -614,9 +622,15 @@ func run(c *vf.Ctx) {
 		}
 		c.Count("git_numstat_batches", 1)
 		nums, err := parseNumstatZ(res.Out, newIDs)
-		c.Must(err, "numstat parse")
+		if err != nil {
+			c.Broken("numstat parse: %v", err)
+			return
+		}
 		r, err := git.PlainOpen(repo)
-		c.Must(err, "go-git PlainOpen")
+		if err != nil {
+			c.Broken("go-git PlainOpen: %v", err)
+			return
+		}
 		for j, tc := range batch {
 			k.checkCase(r, tc, ids[2*j], ids[2*j+1], nums[ids[2*j+1]], &mu, reported)
 		}
@@ -1035,6 +1049,9 @@ func (k *checker) checkCase(r *git.Repository, tc tcase, oldID, newID string, nu
 			continue
 		}
 		key := k.statsKey(clause, p)
+		if clause == "stats-gogit-diff-not-minimal" {
+			key = clause // one cause whatever the file kind: the line diff itself is longer than git's
+		}
 		k.fail(mu, reported, key, fmt.Sprintf("%q: go-git +%d -%d, git numstat +%d -%d (net line change %d)", path, s.Addition, s.Deletion, ns.add, ns.del, net), replayOf(p, tc.ctx))
 	}
 	for name := range st {
